@@ -28,6 +28,7 @@ class Checker:
         self.mirror_on = bool(knobs.get('mirror', 0)); self.verbose_log = bool(knobs.get('verboseLog', 0)); self.names = None
         mcode = {'preUpdate': 7, 'update': 8, 'postUpdate': 9, 'preReact': 10, 'react': 11, 'postReact': 13, 'query': 12}
         self.masked = set((mcode[m], int(k)) for k, v in shape.get('mask', {}).items() for m in v)
+        self.lockstep_only = bool(shape['cfg'].get('builtin_rng'))   # built-in generator: random outcomes are not predictable, only differential checks apply
         self.idmask = 0xff if shape['cfg'].get('payload') == 'tiny' else None
         self.taskcap = knobs.get('taskcap', 0); self.plans_on = bool(knobs.get('plans', 0))
         self.auth_notes = set(); self.auth_single_round = True; self.ylist = []; self.vflag = None; self.bytes = None
@@ -87,6 +88,8 @@ class Checker:
             if op.op == OP['COPY']:
                 self.on_copy(op); continue
             self.lockstep(op)
+            if self.lockstep_only:
+                self.wf(op); self.state(op.inst)['prev_op'] = op; continue
             self.wf(op)
             self.step(op)
     # ------------------------------------------------------------------
@@ -158,7 +161,7 @@ class Checker:
         if a != b:
             i = 0; la = list(a[1]); lb = list(b[1])
             while i < min(len(la), len(lb)) and la[i] == lb[i]: i += 1
-            self.v('C10', 'copy|copy-does-not-continue-as-the-original-would', op, {'first-difference-at-event': i, 'original': la[i:i + 3], 'copy': lb[i:i + 3], 'snapshots': [o.act, op.act, o.res, op.res]})
+            self.v('C10', 'copy|copy-does-not-continue-as-the-original-would' + ('|built-in-generator-shared-with-original' if self.lockstep_only else ''), op, {'first-difference-at-event': i, 'original': la[i:i + 3], 'copy': lb[i:i + 3], 'snapshots': [o.act, op.act, o.res, op.res]})
         else: self.nontrivial['C10'].add((op.act, op.res, op.op))
 
     # ------------------------------------------------------------------ C03
